@@ -14,6 +14,7 @@ PRELUDE = r'''
 #include <yorel/yomm2/symbols.hpp>
 #include <yorel/yomm2/macros.hpp>
 #include <memory>
+#include <string>
 using namespace yorel::yomm2;
 namespace c11 {
 struct A { virtual ~A() {} int a; };
@@ -70,6 +71,13 @@ def types_unit(tier):
           "static_assert(std::is_same_v<decltype(&detail::thunk<P, int(virtual_<A&>, int, std::unique_ptr<int>, virtual_<A&>), th::d1, detail::types<B&, int, std::unique_ptr<int>, VB&>>::fn), int (*)(A&, int, std::unique_ptr<int>, A&)>);")
     u.add("thunk|sig|2", "thunk::fn has the method's signature with virtual_<> removed (shared_ptr, move-only by value, const ref)",
           "static_assert(std::is_same_v<decltype(&detail::thunk<P, int(virtual_<std::shared_ptr<A>>, Mv, virtual_<const A&>), th::d2, detail::types<std::shared_ptr<E>, Mv, const D2&>>::fn), int (*)(std::shared_ptr<A>, Mv, const A&)>);")
+    # ... also when the definition's non-virtual parameters are only convertible from the method's (the thunk is reached through a
+    # pointer of the METHOD's function type: its parameters are the method's, the conversion happens inside it)
+    u.raw("namespace th { int d3(B&, double, const std::string&); int d4(std::shared_ptr<E>, long, const A&); }")
+    u.add("thunk|sig|3", "thunk::fn keeps the method's non-virtual parameter types when the definition takes convertible ones (int -> double, const char* -> const std::string&)",
+          "static_assert(std::is_same_v<decltype(&detail::thunk<P, int(virtual_<A&>, int, const char*), th::d3, detail::types<B&, double, const std::string&>>::fn), int (*)(A&, int, const char*)>);")
+    u.add("thunk|sig|4", "thunk::fn keeps the method's non-virtual parameter types (short -> long) between virtual parameters",
+          "static_assert(std::is_same_v<decltype(&detail::thunk<P, int(virtual_<std::shared_ptr<A>>, short, virtual_<const A&>), th::d4, detail::types<std::shared_ptr<E>, long, const A&>>::fn), int (*)(std::shared_ptr<A>, short, const A&)>);")
     u.add("method|fptr", "function_pointer_type / next_type of a method is R(*)(remove_virtual<A>...)",
           "static_assert(std::is_same_v<method<void, int(virtual_<A&>, Mv, virtual_ptr<A>, virtual_<std::shared_ptr<A>>)>::function_pointer_type, int (*)(A&, Mv, virtual_ptr<A>, std::shared_ptr<A>)>);")
     # the functions the declaration macros generate return what the method returns (references stay references)
